@@ -14,7 +14,7 @@ ASSUMPTIONS = [
 
 PROPS = {}
 NOT_APPLICABLE = {}
-HOOK_COMMITS = ["cc451d6"]
+HOOK_COMMITS = ["cc451d6", "bf01b29"]
 _UNITS = []
 
 
@@ -580,5 +580,12 @@ PROPS["C19"]["level_text"] += (" tell_system_pubsub_msg(): every notification wi
 for _h, _fn in (("traverse_in", "traverse_inorder"), ("traverse_pre", "traverse_preorder"), ("traverse_post", "traverse_postorder")):
     U("b." + _h, src="units/bst.c", harness="h_b_" + _h, enforce=_fn, enforce_rec=True, replace=["v_trav_cb"], defines=["V_TRAV_UNIT"], logctx="STRUCTS", props=["C11", "C04"],
       contract_files=["contracts/bst.contracts.h"], native=False, timeout=300, min_obligations=5, unwind=3, unwindset={"v_base_init.0": 8, "v_inputs_init.0": 12}, structure_dependent=True)
-# (mod.manage_srcs: a loop-contract unit for the per-kind source walk exists as a draft -- contracts/msrcs.contracts.h, V_MSRCS_UNIT in units/mod_unit.c -- but is NOT registered:
-# 6 min per run and its iterator preconditions do not discharge yet; manage_srcs() stays a callee contract, listed under not_decided of C09/C01)
+
+
+U("mod.manage_srcs", src="units/mod_unit.c", harness="h_manage_srcs", enforce="manage_srcs", loop_contracts=True, defines=["V_MSRCS_UNIT"], logctx="CORE",
+  replace=["m_bst_itr_new", "m_bst_itr_next", "m_bst_itr_get_data", "m_bst_itr_remove", "poll_set_new_evt", "start_task", "flush_pubsub_msgs"],
+  props=["C09", "C01", "C02", "C04"], contract_files=ABS + ["contracts/cb.contracts.h", "contracts/msrcs.contracts.h"], native=False, timeout=900, min_obligations=30, must_have=["invariant after step"],
+  unwindset={"h_manage_srcs.0": 9})
+
+PROPS["C09"]["level_text"] += (" manage_srcs() (two nested loop contracts, any number of sources per kind): a stop empties every per-kind set (each source removed exactly once, pending messages of the "
+                               "module destroyed), start/resume/pause leave the registry exactly as it is and add / remove every registered source to / from the poll set exactly once.")
